@@ -334,8 +334,13 @@ func Last[T any](ctx context.Context, s Stream[T], n int) ([]T, error) {
 		} else if err != nil {
 			return nil, err
 		}
-		buf[i%n] = item
+		if n > 0 {
+			buf[i%n] = item
+		}
 		i++
+	}
+	if n == 0 {
+		return buf, nil
 	}
 	if i < n {
 		return buf[:i], nil
